@@ -228,8 +228,12 @@ def run_batch(args):
     st["hist"][k] = st["hist"].get(k, 0) + 1
   for c, it, mo in zip(cases, its, mouts):
     st["n"] += 1
-    model = L.decode_model(mo, it, outdir)
-    impl = L.run_impl(c, outdir)
+    try:
+      model = L.decode_model(mo, it, outdir)
+      impl = L.run_impl(c, outdir)
+    except Exception as e:   # pylint: disable=broad-except
+      st["mismatch"].append(("exception while running/reading back the implementation: %r" % (e,), c))
+      continue
     wf = L.wf_case(c)
     kinj, ninj = L.injective_case(c)
     d = cmp_plans(model, impl, check_module=not opts.get("adversarial"))
@@ -260,11 +264,7 @@ def run_batch(args):
       no = L.count_orders(impl)
       h("orders<=1" if no <= 1 else "orders<=10" if no <= 10 else "orders<=100" if no <= 100 else "orders>100")
     for fp, msg in bad:
-      if fp in ("dup-output:module-name-collision", "imports-file-overwritten:module-name-collision") and kinj and ninj:
-        fp = "UNEXPECTED:" + fp
       st["viol"].append((fp, msg, c))
-    if bad and model != "ERR" and not d:
-      pass
     if len(st["samples"]) < 2 and nontrivial and cyc >= 2 and nmods <= 4:
       st["samples"].append({"groups": c["groups"], "kinds": [m[3] for m in c["mods"]], "req": c["req"],
                             "plan": [(s["action"], s["out"].replace(outdir, "$O"), [x.replace(outdir, "$O") for x in s["deps"]])
@@ -398,7 +398,10 @@ def text_leg(res, exe, root, r, n_cases):
     d = cmp_plans(model, impl, check_module=False)
     if d:
       n_bad += 1
-      res.obligation("correspondence:adversarial-structure", False, d + " case=" + json.dumps(c)[:600])
+      if n_bad <= 3:
+        res.obligation("correspondence:adversarial-structure", False, d + " case=" + json.dumps(c)[:600])
+      for fp, msg in L.oracle(c, outdir, impl):       # what does the property say about the implementation here?
+        viol.append((fp, msg, c))
       continue
     texts = L.statements_text(outdir)
     _, msteps = model
@@ -548,13 +551,7 @@ def mini_parse_inputs(text):
   """ninja's reading of `build OUT_: r TEXT` from TEXT on (ins, implicit, order-only, validations)."""
   pos = L._eat_ws(text, 0)   # pylint: disable=protected-access
   def paths(pos):
-    res = []
-    while True:
-      p, pos = L.py_lex(text, pos, True, ENV)
-      pos = L._eat_ws(text, pos)  # pylint: disable=protected-access
-      if not p:
-        return res, pos
-      res.append(p)
+    return L.read_path_list(text, pos, ENV)
   ins, pos = paths(pos)
   imp, oo, val = [], [], []
   def tok(pos):
@@ -988,6 +985,61 @@ def dfig_leg(res, exe, root, r, n_syn, n_real):
 
 
 # ---------------------------------------------------------------------------------------------
+# the extracted OCaml model agrees with the Coq kernel's own evaluation (vm_compute) on sample cases
+
+def kernel_leg(res, exe, cases):
+  def path(p):
+    if p == "D":
+      return "PDefault"
+    k, f = p.rsplit(".", 1)
+    return "PPyi %s %s" % (k, "true" if f == "1" else "false")
+  def lst(xs):
+    return "[" + "; ".join(xs) + "]"
+  lines = [L.model_line(c)[0] for c in cases]
+  outs = subprocess.run([exe], input="\n".join(lines) + "\n", capture_output=True, text=True).stdout.split("\n")
+  body = ("From Coq Require Import List NArith Bool.\nFrom PV Require Import Plan.Model.\nImport ListNotations.\n"
+          "Local Open Scope N_scope.\n"
+          "Definition view (r : option st) := option_map (fun s => map (fun t => (s_out t, s_action t, s_input t, "
+          "s_deps t, s_impfile t, s_imports t, s_module t)) (plan s)) r.\n")
+  for ln, out in zip(lines, outs):
+    t = ln.split()[1:]
+    i = 0
+    nm = int(t[i]); i += 1
+    mods = []
+    for _ in range(nm):
+      p_, t_, n_, k_, f_, key_, e_ = t[i:i + 7]; i += 7
+      mods.append("(Module %s %s %s %s %s %s %s)" % (p_, t_, n_, L.KINDS[int(k_)], f_, key_, "true" if e_ == "1" else "false"))
+    nr = int(t[i]); i += 1
+    req = t[i:i + nr]; i += nr
+    ng = int(t[i]); i += 1
+    groups = []
+    for _ in range(ng):
+      n1 = int(t[i]); i += 1
+      g = [mods[int(x)] for x in t[i:i + n1]]; i += n1
+      n2 = int(t[i]); i += 1
+      d = [mods[int(x)] for x in t[i:i + n2]]; i += n2
+      groups.append("(%s, %s)" % (lst(g), lst(d)))
+    if out.strip() == "ERR":
+      want = "None"
+    else:
+      steps = []
+      body_ = out.strip()[3:].partition("#")[2]
+      for st in body_.split(";") if body_ else []:
+        o, a, inp, ds, f, im, _fin, mod = st.split("|")
+        nm_, first = f.split(":")
+        imps = lst(["(%s, %s)" % (e.split("=")[0], path(e.split("=")[1])) for e in im.split(" ")] if im else [])
+        steps.append("(%s, %s, %s, %s, (%s, %s), %s, %s)" % (
+            path(o), a.upper(), inp, lst([path(x) for x in ds.split(" ")] if ds else []),
+            nm_, "true" if first == "1" else "false", imps, mod))
+      want = "Some " + lst(steps)
+    body += "Goal view (setup_build %s %s) = %s.\nProof. vm_compute. reflexivity. Qed.\n" % (lst(req), lst(groups), want)
+  ok, log = common.run_cases_v("c19_kernel", body)
+  res.obligation("correspondence:extracted-model-vs-coq-kernel(vm_compute)", ok,
+                 "%d sample cases" % len(cases) if ok else log[-1500:])
+  res.count(None, len(cases))
+
+
+# ---------------------------------------------------------------------------------------------
 
 FINDING_CASES = [
     # two requested scripts outside the pythonpath: importlab gives both the module name '' -> one shared
@@ -1010,6 +1062,11 @@ def report_violations(res, viol, root):
   """De-duplicate by fingerprint, shrink, report (<= 3 unlisted ones)."""
   by = {}
   for fp, msg, c in viol:
+    # the two collision findings are only "known" where their cause is present in the input
+    if fp.startswith("dup-output:") or fp.startswith("imports-file-overwritten:"):
+      kinj, ninj = L.injective_case(c)
+      if (fp.startswith("dup-output:") and kinj) or (fp.startswith("imports-file-overwritten:") and ninj):
+        fp = "UNEXPECTED:" + fp
     by.setdefault(fp, (msg, c))
   reported = 0
   for fp, (msg, c) in sorted(by.items()):
@@ -1021,18 +1078,20 @@ def report_violations(res, viol, root):
     small = shrink_case(c, fp.replace("UNEXPECTED:", ""), os.path.join(root, "shrink"), budget_s=20.0 if reported == 0 else 5.0)
     res.violation(fp, msg, {"case": small, "original": c if small != c else None})
     reported += 1
-  res.extra["violation_fingerprints"] = {fp: sum(1 for f, _, _ in viol if f == fp) for fp in by}
+  res.extra["violation_fingerprints"] = {fp: sum(1 for f, _, _ in viol if f == fp.replace("UNEXPECTED:", "")) for fp in by}
 
 
 def run(res):
   res.rule = ("sorted_sources = groups of modules (size>=2: import cycle) with direct deps among earlier groups; "
-              "quick: every structure over <=4 modules x kinds {Local,System}^n x every requested subset; thorough: "
-              "kinds {Local,System,Builtin}^n for n<=4, every structure over 5 modules x 48 sampled (kinds, requested); "
-              "random structures to 12 modules (duplicate/shuffled deps, Direct/Builtin/pytype_extensions, __init__, "
-              "hidden and name/target-mismatch modules, requested files outside the graph, non-well-formed inputs, "
-              "colliding module names), adversarial names (space, colon, dollar, ${x}) incl. the output directory, "
-              "real importlab graphs of generated projects. Non-trivial = >=2 statements with a declared dependency; "
-              "distinct by (groups, kinds, requested).")
+              "quick: every structure over <=4 modules (1+3+15+135 shapes) x kinds {Local,System}^n x every requested "
+              "subset; thorough: kinds {Local,System,Builtin}^n for n<=4, all 2295 shapes over 5 modules x 48 sampled "
+              "(kinds, requested); random structures to 12 modules (cycles to 5, duplicate/shuffled deps, "
+              "Direct/Builtin/pytype_extensions, __init__, hidden and name/target-mismatch modules, requested files "
+              "outside the graph; 10% non-well-formed inputs: dangling deps -> KeyError, a file in two groups; 10% "
+              "colliding module names), adversarial names (space, colon, dollar, ${x}, $x) incl. the output directory, "
+              "synthetic deps_list()s with stubs and real importlab graphs of generated projects. Every written plan is "
+              "read back and checked as a graph; all linear schedules are enumerated for plans of <=8 statements. "
+              "Non-trivial = >=2 statements with a declared dependency; distinct by (groups, kinds, requested).")
   res.assumptions = [
       "module.full_path, _module_to_output_path and name.startswith('pytype_extensions.') are uninterpreted in the model "
       "(ids computed by the real functions); output/imports paths are structured (PDefault/PPyi key first), i.e. "
@@ -1045,10 +1104,14 @@ def run(res):
       "imports_map_loader splits at the first space: a *key* containing a space does not survive the .imports file "
       "(precondition, counted; keys are importable module paths)",
       "extraction via ExtrOcamlBasic + harness/ocaml/plan_driver.ml; generator/differ/oracle in harness/props/c19*.py"]
+  t_start = time.time()
   common.coq_obligations(res, "C19")
+  res.extra["coq_leg_wall_s(incl. waiting for the shared coq lock)"] = round(time.time() - t_start, 1)
+  t_start = time.time()
   common.bootstrap_pytype()
   L.setup()
   exe = common.build_extracted("plan", "Extract/ExtractPlan.v", DRIVER, ["plan_model"])
+  res.extra["bootstrap+extraction_wall_s"] = round(time.time() - t_start, 1)
   res.trusted_base += ["Coq extraction (ExtrOcamlBasic only) + OCaml ocamlopt + harness/ocaml/plan_driver.ml",
                        "ninja 1.11.1 binary from the `ninja` wheel in /venv (used as reference reader only)"]
   thorough = res.tier == "thorough"
@@ -1118,6 +1181,11 @@ def run(res):
     res.extra["exhaustive"] = ("<=4 modules, kinds {Local,System,Builtin}, all requested subsets; 5 modules: all structures x 48 samples"
                                if thorough else "<=4 modules, kinds {Local,System}, all requested subsets")
     res.extra["sweep_wall_s"] = round(time.time() - t0, 1)
+    # ---- the extracted model against the kernel's evaluation of the same definitions
+    kr = common.rng(res.seed, "c19", "kernel")
+    kernel_leg(res, exe, corpus + [random_case(kr, 8, flavour=[None, None, "dangling", "same-key"][i % 4])
+                                   for i in range(60 if thorough else 24)])
+    res.extra["kernel_leg_wall_s"] = round(time.time() - t0 - res.extra["sweep_wall_s"], 1)
     # ---- adversarial names: text, parse_build, ninja binary, reader
     t1 = time.time()
     viol += text_leg(res, exe, root, common.rng(res.seed, "c19", "text"), 400 if thorough else 60)
